@@ -7,6 +7,7 @@ package main
 
 import (
 	"fmt"
+	"os"
 	"path/filepath"
 	"reflect"
 	"sort"
@@ -26,6 +27,7 @@ type runKey struct {
 
 type runSnap struct {
 	vals    map[string]string // key -> rendered observed value
+	layers  int               // soil layers of the profile the run works with
 	lastDay int
 	ext     string
 }
@@ -35,27 +37,63 @@ func ffmt(x float64, d int) string { return strconv.FormatFloat(x, 'f', d, 64) }
 func runKeys() []runKey {
 	sw := func(r *vh.Rng, p *proj.Project) string { return onOffList[r.Intn(len(onOffList))] }
 	return []runKey{
-		{"LeachingDepth", "int", func(r *vh.Rng, p *proj.Project) string { return strconv.Itoa(r.Range(1, p.N())) }, true},
-		{"NDeposition", "float", func(r *vh.Rng, p *proj.Project) string { return ffmt(r.Uni(0, 60), 1) }, true},
+		{"LeachingDepth", "int", func(r *vh.Rng, p *proj.Project) string {
+			if p.N() < 15 {
+				return strconv.Itoa(r.Range(1, 20)) // short profile: also depths below the profile bottom (nothing is counted as leached)
+			}
+			return strconv.Itoa(r.Range(1, p.N()))
+		}, true},
+		{"NDeposition", "float", func(r *vh.Rng, p *proj.Project) string {
+			if x := r.Uni(-12, 60); x >= 0 {
+				return ffmt(x, 1)
+			} else if x < -6 {
+				return "0" // exactly none
+			}
+			return "12.37"
+		}, true},
 		{"Latitude", "float", func(r *vh.Rng, p *proj.Project) string { return ffmt(r.Uni(35, 65), 2) }, true},
 		{"Altitude", "float", func(r *vh.Rng, p *proj.Project) string { return strconv.Itoa(r.Range(0, 800)) }, true},
 		{"CO2concentration", "float", func(r *vh.Rng, p *proj.Project) string { return ffmt(r.Uni(300, 700), 1) }, true},
-		{"KcFactorBareSoil", "float", func(r *vh.Rng, p *proj.Project) string { return ffmt(r.Uni(0.2, 0.9), 2) }, true},
-		{"OrganicMatterMineralProportion", "float", func(r *vh.Rng, p *proj.Project) string { return ffmt(r.Uni(0.05, 0.3), 2) }, true},
+		{"KcFactorBareSoil", "float", func(r *vh.Rng, p *proj.Project) string {
+			if x := r.Uni(0.2, 1.2); x <= 0.9 {
+				return ffmt(x, 2)
+			} else {
+				return []string{"0", "0.05", "2.0"}[int((x-0.9)*10)%3]
+			}
+		}, true},
+		{"OrganicMatterMineralProportion", "float", func(r *vh.Rng, p *proj.Project) string {
+			if x := r.Uni(0.05, 0.38); x <= 0.3 {
+				return ffmt(x, 2)
+			} else {
+				return []string{"0", "1", "0.999"}[int((x-0.3)*100)%3]
+			}
+		}, true},
 		{"AnnualAverageTemperature", "float", func(r *vh.Rng, p *proj.Project) string { return ffmt(r.Uni(5, 12), 1) }, true},
-		{"Fertilization", "float", func(r *vh.Rng, p *proj.Project) string { return strconv.Itoa(r.Range(50, 150)) }, true},
+		{"Fertilization", "float", func(r *vh.Rng, p *proj.Project) string {
+			if x := r.Range(50, 170); x <= 150 {
+				return strconv.Itoa(x)
+			} else {
+				return []string{"0", "1", "250", "33"}[x%4]
+			}
+		}, true},
 		{"CO2StomataInfluence", "switch", sw, true},
 		{"GroundWaterPhase", "int", func(r *vh.Rng, p *proj.Project) string { return strconv.Itoa(r.Range(0, 360)) }, true},
 		{"PotMineralisation", "int", func(r *vh.Rng, p *proj.Project) string { return strconv.Itoa(r.Range(0, 2)) }, true},
-		{"CO2method", "int", func(r *vh.Rng, p *proj.Project) string { return strconv.Itoa(r.Range(1, 3)) }, true},
-		{"ETpot", "int", func(r *vh.Rng, p *proj.Project) string { return strconv.Itoa(r.Range(2, 4)) }, true},
+		{"CO2method", "int", func(r *vh.Rng, p *proj.Project) string { return strconv.Itoa(r.Range(0, 4)) }, true}, // 0 and 4: no CO2 effect
+		{"ETpot", "int", func(r *vh.Rng, p *proj.Project) string {
+			return strconv.Itoa([]int{2, 3, 4, 2, 3, 4, 0, 6, 5}[r.Intn(9)]) // 0 / 6: no method (ET = 0); 5 with a weather file without ET0 column
+		}, true},
 		{"ResultFileExt", "text", func(r *vh.Rng, p *proj.Project) string { return []string{"csv", "RES", "out", "txt", "dat", "", ""}[r.Intn(7)] }, true}, // an empty text is a value too: it overrides the lower layer and is then resolved by the result format
 		{"EndDate", "text", func(r *vh.Rng, p *proj.Project) string {
 			lo, hi := p.Start().Z()+40, p.End().Z()
 			if hi < lo {
 				hi = lo
 			}
-			return proj.FromZ(r.Range(lo, hi)).Fmt(1)
+			z := r.Range(lo-3, hi)
+			if z < lo {
+				z = p.Start().Z() + (z - (lo - 3)) // the start day itself, the day after, two days after: a run of one to three days
+			}
+			return proj.FromZ(z).Fmt(1)
 		}, false},
 	}
 }
@@ -98,7 +136,7 @@ func c14RunOnce(root string, p *proj.Project) (*runSnap, *proj.RunResult) {
 					"CO2method": fmt.Sprintf("i%d", g.CO2METH), "ETpot": fmt.Sprintf("i%d", g.ETMETH),
 				}
 			}
-			sn.lastDay = zeit
+			sn.lastDay, sn.layers = zeit, g.N
 		},
 	})
 	for name := range res.Out.Files {
@@ -137,7 +175,11 @@ func c14Runs(c *vh.Ctx, metas []cfgMeta) {
 	nRuns := c.N(16, 150)
 	for k := 0; k < nRuns; k++ {
 		r := c.Rng.Fork()
-		p := proj.Gen(r, fmt.Sprintf("cfg%d", k), proj.Opt{Years: 1, NoCrop: r.Chance(0.7), MinLayers: 15})
+		gopt := proj.Opt{Years: 1, NoCrop: r.Chance(0.7), MinLayers: 15}
+		if k%4 == 3 {
+			gopt.MinLayers, gopt.MaxLayers = 2, 9 // a short profile: the documented default LeachingDepth 15 lies below its bottom
+		}
+		p := proj.Gen(r, fmt.Sprintf("cfg%d", k), gopt)
 		layer := map[string]string{}
 		want := map[string]string{} // key -> value text the run must use
 		dup := ""
@@ -198,11 +240,31 @@ func c14Runs(c *vh.Ctx, metas []cfgMeta) {
 			}
 			p.Args[i], p.Args[j] = p.Args[j], p.Args[i]
 		}
+		tk := c14TextKeys(p, k)
 		if err := p.Write(root, c.Repo); err != nil {
 			c.Violate("search", "harness:write", err.Error(), nil)
 			continue
 		}
+		if err := tk.place(root, p); err != nil {
+			c.Violate("search", "harness:write", err.Error(), nil)
+			continue
+		}
+		// config.yml in another valid rendering (CRLF, comments, document marker, quoted keys)
+		cfgStyle := (k / 2) % 5
+		if err := p.WriteConfigStyle(root, cfgStyle); err != nil {
+			c.Violate("search", "harness:write", err.Error(), nil)
+			continue
+		}
+		c.Count(fmt.Sprintf("run:config-style:%d", cfgStyle))
 		sn, res := c14RunOnce(root, p)
+		if tk != nil && (res.Panic != "" || res.Err != nil || sn.vals == nil || sn.layers != p.N()) {
+			c.Violate("search", "run:precedence:file-keys:"+tk.Class, fmt.Sprintf("SoilFile / PolygonGridFileName / WeatherFolder / WeatherRootFolder given as %s: the files named by the effective values hold this project (soil of %d layers), decoy files stand under the names of the lower layer; the run works with %d layers, err=%v panic=%q", tk.Class, p.N(), sn.layers, res.Err, res.Panic),
+				map[string]interface{}{"project": p, "batch_line": p.BatchArgs(), "config_yml": p.Cfg, "file_keys": tk})
+			continue
+		}
+		if tk != nil {
+			c.Count("run:file-keys:" + tk.Class)
+		}
 		if res.Panic != "" || res.Err != nil || sn.vals == nil {
 			c.Count("run:failed")
 			c.Note("run %s did not complete: err=%v panic=%q batch line %v layers %v ETpot=%s", p.Name, res.Err, res.Panic, p.BatchArgs(), layer, p.Cfg["ETpot"])
@@ -300,6 +362,7 @@ func c14Runs(c *vh.Ctx, metas []cfgMeta) {
 		if k < 2 {
 			c.Sample(map[string]interface{}{"stage": "run", "project": p.Name, "batch_line": p.BatchArgs(), "layers": layer, "last_day": sn.lastDay, "ext": sn.ext})
 		}
+		c14NoConfigRun(c, root, p, sn, base, k)
 	}
 	// run-level correspondence: the model's effective configuration for the real batch line and file
 	model, err := c.RunDriver(mCases)
@@ -328,4 +391,175 @@ func c14Runs(c *vh.Ctx, metas []cfgMeta) {
 			c.Violate("correspondence", "config.effective(run):fatal", "the model stops on a configuration the run accepts", map[string]interface{}{"batch_line": pend[i].p.BatchArgs(), "config_yml": pend[i].p.Cfg})
 		}
 	}
+}
+
+// c14NoConfigRun: the project without config.yml (the run writes the default file): every key of the file
+// that the batch line does not give is put on the batch line instead, so the effective configuration is the
+// same three-layer overlay with an empty file layer; the run must work with the same values and give the
+// same daily result. (Enumerations are left out when the file holds the documented default, otherwise the
+// case is skipped: the line takes them as numbers only.)
+func c14NoConfigRun(c *vh.Ctx, root string, p *proj.Project, sn *runSnap, base string, k int) {
+	if k%4 != 1 {
+		return
+	}
+	onLine := map[string]bool{}
+	for _, a := range p.Args {
+		if i := strings.Index(a, "="); i > 0 {
+			onLine[a[:i]] = true
+		}
+	}
+	p3 := *p
+	p3.Args = append([]string(nil), p.Args...)
+	var fk []string
+	for kk := range p.Cfg {
+		fk = append(fk, kk)
+	}
+	sort.Strings(fk)
+	for _, kk := range fk {
+		v := strings.Trim(p.Cfg[kk], "\"")
+		switch kk {
+		case "Dateformat":
+			if v != "DateDElong" {
+				return
+			}
+			continue
+		case "GroundWaterFrom":
+			if v != "soilfile" {
+				return
+			}
+			continue
+		}
+		if onLine[kk] {
+			continue
+		}
+		if v == "" || strings.ContainsAny(v, " \t") {
+			return
+		}
+		p3.Args = append(p3.Args, kk+"="+v)
+	}
+	if err := p.RemoveConfig(root); err != nil {
+		return
+	}
+	sn3, res3 := c14RunOnce(root, &p3)
+	c.Eval()
+	c.Count("run:no-config-file")
+	pay := map[string]interface{}{"project": p, "batch_line": p.BatchArgs(), "config_yml": p.Cfg, "batch_line_without_config_file": p3.BatchArgs()}
+	if res3.Panic != "" || res3.Err != nil || sn3.vals == nil {
+		c.Violate("search", "run:no-config-file:fails", fmt.Sprintf("the project without config.yml, all its keys on the batch line, fails: err=%v panic=%q", res3.Err, res3.Panic), pay)
+		return
+	}
+	if res3.Out.File("V") != base || !reflect.DeepEqual(sn.vals, sn3.vals) || sn.lastDay != sn3.lastDay || sn.ext != sn3.ext {
+		diff := ""
+		for name, v := range sn.vals {
+			if sn3.vals[name] != v {
+				diff += fmt.Sprintf(" %s: %s vs %s;", name, v, sn3.vals[name])
+			}
+		}
+		c.Violate("search", "run:no-config-file:differs", fmt.Sprintf("the same keys given on the batch line instead of in config.yml (no file: defaults + line) give another run: last day %d vs %d, ext %q vs %q,%s daily file equal: %v", sn.lastDay, sn3.lastDay, sn.ext, sn3.ext, diff, res3.Out.File("V") == base), pay)
+	}
+}
+
+// ---------------------------------------------------------------- keys that name files
+
+// c14FileKeys: every fourth run gives SoilFile and PolygonGridFileName other values than the generated
+// file names (on the line, in the file or in both with different values) and leaves WeatherFolder /
+// WeatherRootFolder to their documented defaults ("Weather" under the project root). The project's files
+// are stored under the names the effective values give; under the names of the overridden layer stand
+// decoys (a soil with one layer more, a polygon file of another field).
+type c14FileKeys struct {
+	Class              string
+	Soil, SoilDecoy    string
+	Poly, PolyDecoy    string
+	WeatherAtDefault   bool
+}
+
+func c14TextKeys(p *proj.Project, k int) *c14FileKeys {
+	if k%4 != 2 {
+		return nil
+	}
+	t := &c14FileKeys{Soil: "soil", Poly: "poly"}
+	switch (k / 4) % 3 {
+	case 0: // file only
+		t.Class = "file"
+		t.Soil, t.Poly = "bd", "grid"
+		p.Cfg["SoilFile"], p.Cfg["PolygonGridFileName"] = t.Soil, t.Poly
+		t.SoilDecoy, t.PolyDecoy = "soil", "poly" // the documented defaults
+	case 1: // line only, the file keeps the generated names
+		t.Class = "line"
+		t.Soil, t.Poly = "bd", "grid"
+		p.Args = append(p.Args, "SoilFile="+t.Soil, "PolygonGridFileName="+t.Poly)
+		t.SoilDecoy, t.PolyDecoy = "soil", "poly"
+	case 2: // both, different
+		t.Class = "line+file"
+		t.Soil, t.Poly = "prof", "plots"
+		p.Cfg["SoilFile"], p.Cfg["PolygonGridFileName"] = "bd", "grid"
+		p.Args = append(p.Args, "SoilFile="+t.Soil, "PolygonGridFileName="+t.Poly)
+		t.SoilDecoy, t.PolyDecoy = "bd", "grid"
+	}
+	if (k/4)%2 == 0 {
+		t.WeatherAtDefault = true
+		t.Class += "+weather-default"
+		delete(p.Cfg, "WeatherFolder")
+		delete(p.Cfg, "WeatherRootFolder")
+	}
+	return t
+}
+
+func (t *c14FileKeys) place(root string, p *proj.Project) error {
+	if t == nil {
+		return nil
+	}
+	dir := filepath.Join(root, "project", p.Name)
+	soil, err := os.ReadFile(filepath.Join(dir, "soil_"+p.Name+".csv"))
+	if err != nil {
+		return err
+	}
+	poly, err := os.ReadFile(filepath.Join(dir, "poly_"+p.Name+".txt"))
+	if err != nil {
+		return err
+	}
+	os.Remove(filepath.Join(dir, "soil_"+p.Name+".csv"))
+	os.Remove(filepath.Join(dir, "poly_"+p.Name+".txt"))
+	// decoys first (the real files overwrite them if the names coincide): the soil with its last horizon one layer deeper / shallower
+	sl := strings.Split(strings.TrimRight(string(soil), "\n"), "\n")
+	cells := strings.Split(sl[len(sl)-1], ",")
+	if len(cells) < 4 {
+		return fmt.Errorf("unexpected soil line %q", sl[len(sl)-1])
+	}
+	if p.N() < 20 {
+		cells[3] = fmt.Sprintf("%02d", p.N()+1) // (a profile of 20 layers gets no distinguishable decoy)
+	}
+	sl[len(sl)-1] = strings.Join(cells, ",")
+	if err := os.WriteFile(filepath.Join(dir, t.SoilDecoy+"_"+p.Name+".csv"), []byte(strings.Join(sl, "\n")+"\n"), 0o644); err != nil {
+		return err
+	}
+	decoyPoly := strings.Replace(string(poly), " "+p.Field+" ", " X"+p.Field+" ", 1)
+	if err := os.WriteFile(filepath.Join(dir, t.PolyDecoy+"_"+p.Name+".txt"), []byte(decoyPoly), 0o644); err != nil {
+		return err
+	}
+	if err := os.WriteFile(filepath.Join(dir, t.Soil+"_"+p.Name+".csv"), soil, 0o644); err != nil {
+		return err
+	}
+	if err := os.WriteFile(filepath.Join(dir, t.Poly+"_"+p.Name+".txt"), poly, 0o644); err != nil {
+		return err
+	}
+	if t.WeatherAtDefault {
+		src := filepath.Join(root, "weather", "gen")
+		dst := filepath.Join(root, "Weather")
+		if err := os.MkdirAll(dst, 0o755); err != nil {
+			return err
+		}
+		ents, err := os.ReadDir(src)
+		if err != nil {
+			return err
+		}
+		for _, e := range ents {
+			if strings.HasPrefix(e.Name(), "w"+p.Name+".") {
+				if err := os.Rename(filepath.Join(src, e.Name()), filepath.Join(dst, e.Name())); err != nil {
+					return err
+				}
+			}
+		}
+	}
+	return nil
 }
